@@ -1737,3 +1737,10 @@ def _mo_new(flag):
 for _pid in ("C09", "C10"):
     V("%s-meek-flag-per-edge" % _pid.lower(), _pid, "fire", UT, _MO_OLD, _mo_new("forward or backward"), rule="ORIENT.flag", what="the flag only remembers the last edge of a pass: the loop stops early")
     V("%s-silent-meek-flag-accumulated" % _pid.lower(), _pid, "silent", UT, _MO_OLD, _mo_new("oriented_edges or forward or backward"), what="same restructuring with the flag accumulated over the pass")
+
+# ------------------------------------------------------------------------------- round 10 / 11 inspired (C20: reductions of an empty draw)
+_NO_UNI = "    return lambda n: np.random.uniform(lo, hi, n)"
+V("c20-uniform-max-of-empty", "C20", "fire", NO, _NO_UNI, "    def draw(n):\n        x = np.random.uniform(lo, hi, n)\n        if x.max() >= hi:\n            x[x >= hi] = np.nextafter(hi, lo)\n        return x\n    return draw",
+  rule="SIZE.accepts", what="x.max() of an empty array raises: n = 0 is no longer served")
+V("c20-uniform-max-guarded", "C20", "undecided", NO, _NO_UNI, "    def draw(n):\n        x = np.random.uniform(lo, hi, n)\n        if n > 0 and x.max() >= hi:\n            x[x >= hi] = np.nextafter(hi, lo)\n        return x\n    return draw",
+  what="the same clamp behind a size test: harmless (whether the clamp keeps the law is not read)")
